@@ -11,11 +11,11 @@ import (
 // C06: inline text and moves() are hoisted to labels that denote exactly that content.
 
 type C06Case struct {
-	File  *File   `json:"file"`
+	File     *File             `json:"file"`
 	Switches map[string]string `json:"switches,omitempty"`
-	Auto  AutoCfg `json:"auto,omitempty"`
-	Clash string  `json:"clash,omitempty"` // "text" / "movement": a user statement named like a generated label was added
-	Name  string  `json:"name,omitempty"`  // the clashing name
+	Auto     AutoCfg           `json:"auto,omitempty"`
+	Clash    string            `json:"clash,omitempty"` // "text" / "movement": a user statement named like a generated label was added
+	Name     string            `json:"name,omitempty"`  // the clashing name
 }
 
 func c06Src(c *C06Case) string { return Canon(c.File) }
